@@ -23,11 +23,38 @@
 (***************************************************************************)
 EXTENDS Integers, Sequences, FiniteSets, TLC
 
-CONSTANTS NW,        \* number of workers
-          Cap,       \* capacity of the results channel (NW in the code)
-          Mode       \* "always" | "never" | "either"
+CONSTANTS
+  \* @type: Int;
+  NW,        \* number of workers
+  \* @type: Int;
+  Cap,       \* capacity of the results channel (NW in the code)
+  \* @type: Str;
+  Mode       \* "always" | "never" | "either"
 
-VARIABLES ctx, done, results, resultsClosed, closingClosed, wg, pcw, pcwt, pcm, ret, last
+\* (type annotations are comments for TLC / SANY; Apalache reads them for the inductive-invariant check of PowMineInd)
+VARIABLES
+  \* @type: Str;
+  ctx,
+  \* @type: Int;
+  done,
+  \* @type: Seq(Int);
+  results,
+  \* @type: Bool;
+  resultsClosed,
+  \* @type: Bool;
+  closingClosed,
+  \* @type: Int;
+  wg,
+  \* @type: Int -> Str;
+  pcw,
+  \* @type: Str;
+  pcwt,
+  \* @type: Str;
+  pcm,
+  \* @type: Int;
+  ret,
+  \* @type: <<Str, Int, Str>>;
+  last
 vars == <<ctx, done, results, resultsClosed, closingClosed, wg, pcw, pcwt, pcm, ret, last>>
 modelVars == <<ctx, done, results, resultsClosed, closingClosed, wg, pcw, pcwt, pcm, ret>>
 
